@@ -111,19 +111,206 @@ Theorem parse_multi_built ms : ms <> [] -> Forall (fun m => m <> []) ms ->
   parse_multi (le_enc 2 (Z.of_nat (length ms)) ++ flat_map (le_enc 2) (offs_list (2 + Z.of_nat (length ms) * 2) ms) ++ concat ms)
   = RcOk ms.
 Proof.
-  intros Hne HF Hlt. set (N := Z.of_nat (length ms)).
-  assert (HN : 1 <= N < 65536) by (subst N; destruct ms; [congruence|cbn [length] in *; unfold Path.len in *; lia]).
+  intros Hne HF Hlt. unfold bytes in *. remember (Z.of_nat (length ms)) as N eqn:EN.
+  assert (HN : 1 <= N < 65536) by (destruct ms; [congruence|cbn [length] in *; unfold Path.len in *; lia]).
   change (le_enc 2 N) with [N mod 256; (N / 256) mod 256]. cbn [app]. unfold parse_multi. rewrite u16_enc by lia.
   replace (N =? 0) with false by lia.
-  assert (HL : Z.to_nat N = length (offs_list (2 + N * 2) ms)) by (rewrite offs_list_length; unfold N; apply Nat2Z.id). rewrite HL.
+  assert (HL : Z.to_nat N = length (offs_list (2 + N * 2) ms)) by (rewrite offs_list_length; unfold bytes in *; lia). rewrite HL.
   rewrite rd_offsets_built by (apply offs_list_bound; lia).
   destruct ms as [|m r]; [congruence|]. cbn [offs_list].
   replace (2 + N * 2 =? 2 + 2 * N) with true by lia. cbn [negb].
+  assert (Hfl : forall l : list Z, length (flat_map (le_enc 2) l) = (2 * length l)%nat).
+  { induction l as [|x l IH]; [reflexivity|]. cbn [flat_map]. rewrite app_length, le_enc_length, IH. cbn [length]. lia. }
   assert (Hskip : skipn (Z.to_nat (2 * N)) (flat_map (le_enc 2) (2 + N * 2 :: offs_list (2 + N * 2 + Path.len m) r) ++ concat (m :: r))
                   = concat (m :: r)).
-  { apply skipn_app_all. clear. generalize (2 + N * 2 :: offs_list (2 + N * 2 + Path.len m) r) as l.
-    intros l. assert (length (flat_map (le_enc 2) l) = (2 * length l)%nat).
-    { induction l as [|x l IH]; [reflexivity|]. cbn [flat_map]. rewrite app_length, le_enc_length, IH. cbn [length]. lia. }
-    admit. }
-  admit.
-Admitted.
+  { apply skipn_app_all. rewrite Hfl. cbn [length] in *. rewrite offs_list_length. unfold bytes in *. lia. }
+  rewrite Hskip.
+  pose proof (cut_slices_built (m :: r) (2 + N * 2) Hne HF) as Hcut. cbn [offs_list] in Hcut. rewrite Hcut. reflexivity.
+Qed.
+
+(* ================================================================ the embedded reads, served one after the other *)
+Definition item := (preq * bytes * bytes * bytes * Z)%type.      (* request, path, type field, data, element size *)
+Definition it_q (it : item) : preq := let '(q, _, _, _, _) := it in q.
+Definition it_msg (it : item) : bytes := let '(q, path, _, _, _) := it in 76 :: path ++ le_enc 2 (pq_elements q).
+Definition it_reply (it : item) : bytes := let '(_, _, tb, d, _) := it in 204 :: 0 :: 0 :: 0 :: tb ++ d.
+Definition it_need (it : item) : Z := let '(q, _, tb, _, s) := it in 4 + Expect.blen tb + pq_elements q * s.
+Definition it_served (app : lstate) (it : item) : Prop := let '(q, path, tb, d, s) := it in served app q path tb d s.
+Definition sum_need (items : list item) : Z := fold_right (fun it a => it_need it + a) 0 items.
+
+Lemma it_need_ge app it : it_served app it -> Path.len (it_reply it) <= it_need it /\ 4 <= it_need it.
+Proof.
+  destruct it as [[[[q path] tb] d] s]. intros H. pose proof (served_len _ _ _ _ _ _ H) as Hl.
+  destruct H as (pb & l & img & _ & _ & _ & _ & _ & Hn & _ & _ & _ & _ & Hs1 & Hav & _).
+  cbn [it_reply it_need]. unfold Path.len, Expect.blen in *. cbn [length]. rewrite app_length. nia.
+Qed.
+
+Lemma multi_one_read app ms st tr cap seq it :
+  quiet app ms st -> it_served app it -> it_need it <= cap ->
+  exists st', multi_one logix_handler tr cap seq st (it_msg it) = (st', it_reply it) /\ quiet app ms st'.
+Proof.
+  destruct it as [[[[q path] tb] d] s]. cbn [it_served it_need it_msg it_reply].
+  intros Hq (pb & l & img & Hpw & Hcia & Hpb4 & Hres & Hmem & Hn & Hs & Htb & _ & Htb4 & Hs1 & Hav & Hd & _) Hcap.
+  unfold multi_one. rewrite (parse_mr_msg 76 path pb (le_enc 2 (pq_elements q)) Hpw) by lia.
+  set (rq := {| mr_service := 76; mr_path := pb; mr_data := le_enc 2 (pq_elements q) |}).
+  change (is_multi_request rq) with false. cbv iota.
+  assert (Hsvc : tag_service app l cap rq = (app, reply6 false (tb ++ d), [])).
+  { unfold tag_service. rewrite Hmem. cbn [mr_service rq Z.eqb Pos.eqb mr_data].
+    rewrite (svc_read_full (ls_proj app) (ls_pol app) img l cap (pq_elements q) s tb d Hn Hs Htb Hs1 Hav ltac:(lia) Hd). reflexivity. }
+  destruct (dispatch_one_tag app ms st tr cap seq rq l _ _ Hq Hcia Hres Hsvc) as (st1 & Hd1 & Hq1).
+  rewrite Hd1. cbn [mr_service rq]. rewrite reply_bytes. unfold fit.
+  pose proof (loc_bytes_len _ _ _ _ _ _ Hd) as Hld.
+  assert (Hfit : EncapParser.blen (reply_service 76 :: 0 :: 0 :: 0 :: tb ++ d) <= cap).
+  { unfold EncapParser.blen, Expect.blen in *. cbn [length]. rewrite app_length. nia. }
+  replace (EncapParser.blen (reply_service 76 :: 0 :: 0 :: 0 :: tb ++ d) <=? cap) with true by lia.
+  eexists. split; [reflexivity|]. apply quiet_logs. exact Hq1.
+Qed.
+
+Lemma rev_append_snoc {A} (acc : list A) b : rev_append (b :: acc) [] = rev_append acc [] ++ [b].
+Proof. rewrite !rev_append_rev, !app_nil_r. reflexivity. Qed.
+
+Lemma sum_need_tail app items : Forall (it_served app) items -> 4 * Z.of_nat (length items) <= sum_need items.
+Proof.
+  induction 1 as [|it r Hit _ IH]; [cbn; lia|]. cbn [sum_need fold_right length] in *.
+  destruct (it_need_ge app it Hit). fold (sum_need r). lia.
+Qed.
+
+Theorem multi_run_reads app ms tr seq : forall items st left later acc,
+  quiet app ms st -> Forall (it_served app) items -> later = Z.of_nat (length items) -> sum_need items <= left ->
+  exists st', multi_run logix_handler tr seq left later (map it_msg items) st acc
+              = (st', rev_append acc [] ++ map it_reply items) /\ quiet app ms st'.
+Proof.
+  induction items as [|it r IH]; intros st left later acc Hq HF Hlater Hsum.
+  - cbn. rewrite app_nil_r. eauto.
+  - inversion HF as [|x y Hit HF']; subst. cbn [map multi_run].
+    cbn [sum_need fold_right] in Hsum. fold (sum_need r) in Hsum.
+    pose proof (sum_need_tail app r HF') as Htail. destruct (it_need_ge app it Hit) as [Hrl Hn4].
+    destruct (multi_one_read app ms st tr (left - 4 * (Z.of_nat (length (it :: r)) - 1)) seq it Hq Hit) as (st1 & H1 & Hq1).
+    { cbn [length]. lia. }
+    rewrite H1.
+    destruct (IH st1 (left - EncapParser.blen (it_reply it)) (Z.of_nat (length (it :: r)) - 1) (it_reply it :: acc) Hq1 HF') as (st' & H2 & Hq').
+    { cbn [length]. lia. }
+    { unfold EncapParser.blen, Path.len in *. lia. }
+    rewrite H2. exists st'. split; [|exact Hq']. rewrite rev_append_snoc, <- app_assoc. reflexivity.
+Qed.
+
+(* ================================================================ the whole exchange *)
+Lemma offsets_of_multi : forall reps cur, offsets_of cur reps = multi_offsets cur reps.
+Proof. induction reps as [|b r IH]; intros cur; [reflexivity|]. cbn. rewrite IH. reflexivity. Qed.
+
+Lemma any_error_replies items : any_error (map it_reply items) = false.
+Proof.
+  induction items as [|[[[[q path] tb] d] s] r IH]; [reflexivity|]. cbn [map any_error existsb it_reply] in *.
+  unfold any_error in IH. rewrite IH. reflexivity.
+Qed.
+
+Lemma concat_len_replies app items : Forall (it_served app) items -> Path.len (concat (map it_reply items)) <= sum_need items.
+Proof.
+  induction 1 as [|it r Hit _ IH]; [cbn; lia|]. cbn [map concat sum_need fold_right]. fold (sum_need r).
+  rewrite len_app_z. destruct (it_need_ge app it Hit). lia.
+Qed.
+
+Lemma multi_message_ok (msgs : list bytes) : 2 + 2 * Z.of_nat (length msgs) + Path.len (concat msgs) < 65536 ->
+  multi_message msgs = Ok (10 :: [2; 32; 2; 36; 1] ++ le_enc 2 (Z.of_nat (length msgs))
+                              ++ flat_map (le_enc 2) (offs_list (2 + Z.of_nat (length msgs) * 2) msgs) ++ concat msgs).
+Proof.
+  intros Hlt. unfold multi_message. rewrite multi_path_val. cbn [bind].
+  unfold UINT_encode, uint_encode.
+  assert (X : in_urange 2 (Z.of_nat (length msgs)) = true)
+    by (unfold in_urange; change (pow256 2) with 65536; unfold Path.len in *; lia).
+  rewrite X. cbn [bind]. rewrite req_offsets_ok by (unfold Path.len in *; lia). reflexivity.
+Qed.
+
+Theorem multi_read_ok app conn st (items : list item) (ids : list Z) :
+  quiet app true st -> items <> [] -> Forall (it_served app) items -> length ids = length items ->
+  sum_need items <= conn - 8 - 2 * Z.of_nat (length items) ->
+  2 + (8 + 2 * Z.of_nat (length items) + Path.len (concat (map it_msg items))) <= conn -> conn < 65536 ->
+  exists msg st',
+    multi_message (map it_msg items) = Ok msg
+    /\ send (target_peer conn) st msg = (st', Done (unit_prefix ++ 138 :: 0 :: 0 :: 0 :: multi_data (map it_reply items)))
+    /\ quiet app true st'
+    /\ multi_results (multi_datas (unit_prefix ++ 138 :: 0 :: 0 :: 0 :: multi_data (map it_reply items)))
+                     (combine ids (map it_q items))
+       = combine ids (map (fun it => let '(q, _, tb, d, _) := it in reply_opt (tb ++ d) (pq_info q) (pq_elements q)) items).
+Proof.
+  intros Hq Hne HF Hids Hsum Hreq Hconn.
+  remember (map it_msg items) as msgs eqn:Emsgs. remember (Z.of_nat (length items)) as N eqn:EN.
+  assert (HlenN : length msgs = length items) by (rewrite Emsgs; apply map_length).
+  assert (HN1 : 1 <= N) by (destruct items; [congruence|cbn [length] in EN; lia]).
+  assert (Hmm : multi_message msgs = Ok (10 :: [2; 32; 2; 36; 1] ++ le_enc 2 N
+                 ++ flat_map (le_enc 2) (offs_list (2 + N * 2) msgs) ++ concat msgs)).
+  { rewrite multi_message_ok; rewrite HlenN, <- EN; [reflexivity|]. unfold bytes, Path.len in *; lia. }
+  remember (le_enc 2 N ++ flat_map (le_enc 2) (offs_list (2 + N * 2) msgs) ++ concat msgs) as data eqn:Edata.
+  exists (10 :: [2; 32; 2; 36; 1] ++ data). rewrite Hmm.
+  assert (Hpm : parse_multi data = RcOk msgs).
+  { rewrite Edata, EN, <- HlenN. apply parse_multi_built.
+    - rewrite Emsgs. destruct items; [congruence|discriminate].
+    - rewrite Emsgs. clear. induction items as [|[[[[q path] tb] d] s] r IH]; constructor; [discriminate|exact IH].
+    - unfold bytes, Path.len in *; lia. }
+  (* the target *)
+  assert (Hpeer : exists st', target_peer conn st (10 :: [2; 32; 2; 36; 1] ++ data)
+                   = (st', Some (138 :: 0 :: 0 :: 0 :: multi_data (map it_reply items))) /\ quiet app true st').
+  { unfold target_peer.
+    assert (Hdl : EncapParser.blen data = 2 + 2 * N + Path.len (concat msgs)).
+    { rewrite Edata. unfold EncapParser.blen, Path.len. rewrite !app_length, le_enc_length.
+      assert (Hfl : forall l : list Z, length (flat_map (le_enc 2) l) = (2 * length l)%nat).
+      { induction l as [|x l IH]; [reflexivity|]. cbn [flat_map]. rewrite app_length, le_enc_length, IH. cbn [length]. lia. }
+      rewrite Hfl, offs_list_length, HlenN. unfold bytes in *; lia. }
+    replace (conn <? 2 + EncapParser.blen (10 :: [2; 32; 2; 36; 1] ++ data)) with false.
+    2:{ change (10 :: [2; 32; 2; 36; 1] ++ data) with (10 :: 2 :: 32 :: 2 :: 36 :: 1 :: data).
+        rewrite !blen_cons, Hdl. unfold bytes, Path.len in *; lia. }
+    rewrite (parse_mr_msg 10 [2; 32; 2; 36; 1] [32; 2; 36; 1] data) by (repeat split; try reflexivity; lia).
+    set (rq := {| mr_service := 10; mr_path := [32; 2; 36; 1]; mr_data := data |}).
+    unfold dispatch. change (is_multi_request rq) with true. cbv iota.
+    unfold multi_service, with_injection.
+    assert (Hq1 : quiet app true (logs [EvRequest (TConnected 0) (Some 0) rq] st)) by (apply quiet_logs; exact Hq).
+    destruct Hq1 as (Hi & Ha & Hm). rewrite Hi. cbn [take_injection].
+    set (st2 := set_inject [] (logs [EvRequest (TConnected 0) (Some 0) rq] st)).
+    assert (Hq2 : quiet app true st2) by (apply quiet_set_inject; repeat split; assumption).
+    destruct Hq2 as (Hi2 & Ha2 & Hm2). rewrite Hm2. cbn [negb]. cbn [mr_data rq]. rewrite Hpm.
+    replace (zlen msgs) with N by (unfold zlen; rewrite HlenN; unfold bytes in *; lia).
+    destruct (multi_run_reads app true (TConnected 0) (Some 0) items st2 (conn - 2 - 6 - 2 * N) N []) as (st3 & Hrun & Hq3);
+      [repeat split; assumption|exact HF|exact EN|lia|].
+    rewrite <- Emsgs in Hrun. rewrite Hrun. cbn [rev_append List.app].
+    remember (map it_reply items) as reps eqn:Ereps.
+    assert (Hrn : Z.of_nat (length reps) = N) by (rewrite Ereps, map_length; unfold bytes in *; lia).
+    unfold finish_reply, fit. rewrite Ereps, any_error_replies, <- Ereps.
+    assert (Hbytes : mr_bytes 10 {| rp_status := 0; rp_ext := []; rp_data := le_enc 2 N ++ offsets_of (2 + 2 * N) reps ++ concat reps |}
+                     = 138 :: 0 :: 0 :: 0 :: multi_data reps).
+    { unfold mr_bytes, multi_data. cbn [rp_status rp_ext rp_data flat_map List.app].
+      rewrite offsets_of_multi, Hrn. reflexivity. }
+    cbn [mr_service rq]. rewrite Hbytes.
+    assert (Hrl : EncapParser.blen (138 :: 0 :: 0 :: 0 :: multi_data reps) <= conn - 2).
+    { unfold multi_data. rewrite !blen_cons, !blen_app, blen_le_enc.
+      assert (Hol : forall rs o, EncapParser.blen (multi_offsets o rs) = 2 * Z.of_nat (length rs)).
+      { induction rs as [|b r IH]; intros o; [reflexivity|]. cbn [multi_offsets]. rewrite blen_app, blen_le_enc, IH. cbn [length]. lia. }
+      rewrite Hol, Hrn.
+      pose proof (concat_len_replies app items HF) as Hcl. rewrite <- Ereps in Hcl. unfold bytes, EncapParser.blen, Expect.blen, Path.len in *; lia. }
+    replace (EncapParser.blen (138 :: 0 :: 0 :: 0 :: multi_data reps) <=? conn - 2) with true by lia.
+    eexists. split; [reflexivity|]. apply quiet_logs. exact Hq3. }
+  destruct Hpeer as (st' & Hpeer & Hq').
+  exists st'. split; [reflexivity|]. split; [apply send_some; exact Hpeer|]. split; [exact Hq'|].
+  (* the client *)
+  remember (map it_reply items) as reps eqn:Ereps.
+  assert (Hrn : Z.of_nat (length reps) = N) by (rewrite Ereps, map_length; unfold bytes in *; lia).
+  assert (Hdatas : multi_datas (unit_prefix ++ 138 :: 0 :: 0 :: 0 :: multi_data reps) = reps).
+  { unfold multi_datas.
+    replace (is_some (r_error (parse_unit (unit_prefix ++ 138 :: 0 :: 0 :: 0 :: multi_data reps)))) with false by (vm_compute; reflexivity).
+    replace (opt_is (r_command_status (parse_unit (unit_prefix ++ 138 :: 0 :: 0 :: 0 :: multi_data reps))) SUCCESS) with true
+      by (vm_compute; reflexivity).
+    replace (Reply.r_data (parse_unit (unit_prefix ++ 138 :: 0 :: 0 :: 0 :: multi_data reps))) with (Some (multi_data reps))
+      by (vm_compute; reflexivity).
+    replace (slice 49 50 (unit_prefix ++ 138 :: 0 :: 0 :: 0 :: multi_data reps)) with [0] by (vm_compute; reflexivity).
+    cbn [orb negb].
+    assert (Hsplit : split_multi (multi_data reps) = Reply.ROk reps).
+    { apply multi_demux.
+      - rewrite Ereps. destruct items; [congruence|discriminate].
+      - unfold multi_data_size. rewrite Hrn.
+        pose proof (concat_len_replies app items HF) as Hcl. rewrite <- Ereps in Hcl. unfold bytes, Path.len in *; lia. }
+    rewrite Hsplit. unfold multi_data. change (le_enc 2 (Z.of_nat (length reps))) with
+      [Z.of_nat (length reps) mod 256; (Z.of_nat (length reps) / 256) mod 256]. reflexivity. }
+  rewrite Hdatas, Ereps. clear -Hids.
+  revert ids Hids. induction items as [|[[[[q path] tb] d] s] r IH]; intros ids Hids.
+  - destruct ids; reflexivity.
+  - destruct ids as [|i ids]; [discriminate|]. cbn [map combine multi_results it_q it_reply].
+    rewrite read_response_204_padded. unfold reply_opt. f_equal. apply IH. cbn in Hids. lia.
+Qed.
